@@ -162,6 +162,10 @@ class C14(Check):
             outp = os.path.join(wd, "out.json")
             if out_mode == "dash":
                 args += ["-o", "-"]
+            elif out_mode == "inplace":
+                # the output file is the (single) input file: an in-place edit
+                outp = os.path.join(wd, files[0][0])
+                args += ["-o", files[0][0]]
             elif out_mode == "path":
                 if fault and fault[0] == "outdir":
                     os.mkdir(os.path.join(wd, "odir"))
@@ -210,6 +214,7 @@ class C14(Check):
         if b"goroutine " in r["err"] or b"panic:" in r["err"]:
             return "crash trace on stderr"
         ofile = r["ofile"] or b""
+        touched = r["ofile"] is not None      # the -o file exists and is not the stale file put there before the run
         if lib.outcome == "ok":
             if out_mode == "none":
                 if r["rc"] != 0:
@@ -222,13 +227,13 @@ class C14(Check):
                     return "-o with several inputs must fail with a diagnostic: exit %d, stderr %r" % (r["rc"], clip(r["err"]))
                 if not lib.stdout.startswith(r["out"]):
                     return "-o with several inputs: stdout %r is not (a prefix of) the program's output %r" % (clip(r["out"]), clip(lib.stdout))
-                if ofile:
-                    return "-o with several inputs wrote a file"
+                if touched:
+                    return "-o with several inputs wrote (or truncated) a file: %r" % clip(ofile)
                 return None
             if lib.json in ("!", "P"):
                 if r["rc"] == 0 or not r["err"].strip():
                     return "root cannot be written as JSON, but exit %d, stderr %r" % (r["rc"], clip(r["err"]))
-                if r["out"] != lib.stdout or ofile:
+                if r["out"] != lib.stdout or touched:
                     return "root cannot be written as JSON, but output %r / file %r" % (clip(r["out"]), clip(ofile))
                 return None
             payload = unhx(lib.json)
@@ -250,8 +255,8 @@ class C14(Check):
                 return "no diagnostic on stderr for a %s error" % lib.outcome
             if r["out"] != lib.stdout:
                 return "%s error: stdout %r, library %r" % (lib.outcome, clip(r["out"]), clip(lib.stdout))
-            if ofile:
-                return "%s error, but the -o file was written: %r" % (lib.outcome, clip(ofile))
+            if touched:
+                return "%s error, but the -o file was written (or truncated): %r" % (lib.outcome, clip(ofile))
             return None
         return None     # panic / raw / timeout of the library run: not this property's business
 
@@ -313,6 +318,18 @@ class C14(Check):
         if a and b and c and not sc.fault and a["rc"] == 0 and b["rc"] == 0 and c["rc"] == 0:
             if not b["out"].startswith(a["out"]) or (c["ofile"] or b"") != b["out"][len(a["out"]):]:
                 out.append(({"argv": c["argv"]}, "-o FILE holds %r, -o - appended %r" % (clip(c["ofile"]), clip(b["out"][len(a["out"]):]))))
+        # in place: -o names the input file itself; it is read before it is overwritten, and left alone on an error
+        if n == 1 and not sc.fault and a and b:
+            r = run(sc.prog, "file", sc.files, sc.selectors, "inplace")
+            if r is not None:
+                orig = sc.files[0][1].encode("utf-8", "surrogateescape")
+                if (r["rc"] == 0) != (b["rc"] == 0) or r["out"] != a["out"]:
+                    out.append(({"argv": r["argv"]}, "in-place -o: exit %d stdout %r, with -o - exit %d and the program printed %r"
+                                % (r["rc"], clip(r["out"]), b["rc"], clip(a["out"]))))
+                elif b["rc"] == 0 and b["out"].startswith(a["out"]) and r["ofile"] != b["out"][len(a["out"]):]:
+                    out.append(({"argv": r["argv"]}, "in-place -o: the file holds %r, -o - appended %r" % (clip(r["ofile"]), clip(b["out"][len(a["out"]):]))))
+                elif b["rc"] != 0 and r["ofile"] != orig:
+                    out.append(({"argv": r["argv"]}, "in-place -o: the run failed but the input file was changed to %r" % clip(r["ofile"])))
         # stdin vs file
         if n == 1 and not sc.fault:
             libs = RunRes(impl.get(sc.id + "S", []))
